@@ -409,3 +409,7 @@ func (m *mirror) preReady() int {
 	defer m.mu.Unlock()
 	return m.preRdy
 }
+
+func ctxWithCancel() (context.Context, context.CancelFunc) {
+	return context.WithCancel(context.Background())
+}
